@@ -202,6 +202,18 @@ def explore(pid, tier, seed, verdict, full=True):
                 if os.path.exists(fo):
                     evs_fresh += open(fo).read().splitlines()
             st["fresh_process_attacks"] = len(evs_fresh)
+            # ... and processes whose first calls into the library come from 8 threads at the same moment
+            nfu = 0
+            for i in range(24 if tier == "quick" else 300):
+                fo = os.path.join(work, "firstuse.ndjson")
+                fr = V.run_driver(exe, [fresh_b, fo, good, "--firstuse"], timeout=120, env={"TSAN_OPTIONS": "halt_on_error=0:report_signal_unsafe=0"})
+                if "ThreadSanitizer" in fr.stderr:
+                    verdict.violation("tsan-report", "ThreadSanitizer reported (first use): " + fr.stderr[fr.stderr.find("WARNING"):][:1500])
+                if os.path.exists(fo):
+                    evs_fresh += open(fo).read().splitlines()
+                    nfu += 1
+                    os.remove(fo)
+            st["first_use_processes"] = nfu
         # split the log at LBegin boundaries into shards for parallel validation
         evs = open(out).read().splitlines() + evs_fresh
         events = len(evs)
@@ -250,7 +262,7 @@ def explore(pid, tier, seed, verdict, full=True):
                     key = k
                     fac = res_bad = False
                 relevant = (pid == "C20" and ((k == "Attack" and fac) or k in ("SFacEnter", "LStep"))) or \
-                           (pid == "C13" and ((k == "Attack" and res_bad) or k in ("LStep", "SRet", "SFacEnter", "SHammer"))) or \
+                           (pid == "C13" and ((k == "Attack" and res_bad) or k in ("LStep", "SRet", "SFacEnter", "SHammer", "FirstUse"))) or \
                            (pid == "C14" and k in ("LStep", "SRet", "SFacEnter"))      # the name cache is invisible
                 if pid == "C14":
                     key = "cache:" + key
